@@ -19,6 +19,7 @@ type C09 struct {
 	cuts  []*Case // enumerated cases (truncation offsets, flag values; built in Prepare)
 	nRand int
 	nflag int
+	ngrowth int
 }
 
 func NewC09(st *Stats) *C09 { return &C09{stats: st} }
@@ -65,6 +66,8 @@ func (p *C09) Prepare(env *Env, tier string, seed uint64) error {
 	// flag-value enumeration: every flag of every command with every value of
 	// the list (the input is a small valid one, so the flag decides)
 	p.enumFlags(seed)
+	// the same command on n and 4n repetitions of a unit: growth of the logical clock
+	p.growthCases(seed, tier)
 	// every structurally unusual (but valid or nearly valid) YAML document with every write command
 	for _, raw := range yamlShapes {
 		for _, cmd := range [][]string{{"write"}, {"write", "event"}, {"write", "parse"}, {"write", "conv", "-c", "cmt"}} {
@@ -1080,6 +1083,9 @@ func (p *C09) Evaluate(env *Env, c *Case) (*Outcome, error) {
 		out.Results[i] = r
 		out.Findings = append(out.Findings, checkProcess(&st, r)...)
 	}
+	if c.Kind == "growth" {
+		out.Findings = append(out.Findings, growthFindings(c, out)...)
+	}
 	if c.Kind == "nonsense" {
 		class, carrier := c.Params["class"], c.Params["carrier"]
 		mf := 0
@@ -1161,6 +1167,10 @@ func (p *C09) Shrinks(c *Case) []*Case {
 			out = append(out, d)
 		}
 	}
+	if c.Kind == "growth" {
+		// judged by the relation between its two inputs: not shrunk further
+		return out
+	}
 	if c.Kind != "nonsense" {
 		out = append(out, dropFlagCandidates(c)...)
 	}
@@ -1179,7 +1189,7 @@ func (p *C09) Shrinks(c *Case) []*Case {
 }
 
 func (p *C09) Extra() map[string]any {
-	return map[string]any{"cut_points_enumerated": len(p.cuts) - p.nflag, "flag_values_enumerated": p.nflag}
+	return map[string]any{"cut_points_enumerated": len(p.cuts) - p.nflag - p.ngrowth, "flag_values_enumerated": p.nflag, "growth_comparisons": p.ngrowth}
 }
 
 func (p *C09) Rule() string {
